@@ -47,6 +47,7 @@ class Real:
         self.entered = False
         self.exiting = False
         self.spawn_errors = 0
+        self.refused_during_join = []       # additions refused although the joining task had not finished its join
 
     async def member(self, tid, react):
         if react == 'veteran':
@@ -76,6 +77,8 @@ class Real:
                     self.new_spawns.append((new, react == 'spawnd'))
                 except RuntimeError:
                     self.spawn_errors += 1
+                    if self.J is not None and not self.J.done():
+                        self.refused_during_join.append(new)
                 raise
             if react == 'swallow':
                 return 5
@@ -304,7 +307,8 @@ def run_case(case):
                     R.mk_member(new, 'reraise', act[1])
                     reacts[new] = 'reraise'
                 except RuntimeError:
-                    pass
+                    if R.J is None or not R.J.done():
+                        R.refused_during_join.append(new)
                 label = ['spawn', new, act[1]]
             elif kind == 'addfin':
                 # somebody adds a task that has already finished (add_task)
@@ -387,7 +391,7 @@ def run_case(case):
         res = {'trace': trace, 'props': props, 'join_end': oracle['join_end'], 'late_add': late,
                'outcomes': {str(i): R.outcome(i) for t, i in R.ids.items() if i != 0 and i < 5000},
                'completed': R.ids.get(g.completed) if g.completed is not None else None,
-               'joined': g.joined, 'spawn_errors': R.spawn_errors, 'loop_errors': ['%s %r' % (c.get('message'), c.get('exception')) for c in R.loop.exc],
+               'joined': g.joined, 'spawn_errors': R.spawn_errors, 'refused_during_join': R.refused_during_join, 'loop_errors': ['%s %r' % (c.get('message'), c.get('exception')) for c in R.loop.exc],
                'retained': None}
         if g.joined and case.get('retain'):
             res['retained'] = sorted(R.ids.get(t, -1) for t in g.tasks) == sorted(R.accepted_nd)
@@ -502,5 +506,11 @@ def gen_case(rng, opts=None):
     actions += [['start']] + [['tick']] * 3
     init = [[rng.random() < 0.25, rng.choice(['RetNone', 'RetVal', 'RetVal', 'Exc', 'Canc']), rng.random() < 0.3]
             for _ in range(rng.choice([0, 0, 0, 0, 1, 2]))]
+    if not opts.get('reacts') and rng.random() < 0.1:
+        # a group that holds daemons only, left (or joined) early: nothing to wait for, but the daemons are members too
+        for mb in members:
+            mb['daemon'] = True
+            mb['react'] = mb['react'].replace('foreign:', '')
+        actions = [['tick']] * rng.randrange(0, 4) + [['start']] + [a for a in actions if a[0] != 'start'] + [['tick']] * 30
     return {'policy': rng.choice(['all', 'all', 'any', 'object', 'none']), 'retain': rng.random() < 0.4, 'init': init,
             'mode': rng.choice(['join', 'join', 'aexit', 'aexit_exc']), 'members': members, 'actions': actions}
